@@ -1,4 +1,273 @@
+import SigmaVerif.Lemmas.C07Coll
+import SigmaVerif.Lemmas.C07Spec
+import SigmaVerif.Model.LoadDomain
+/-!
+# C07 — malformed documents raise Sigma errors only; collecting mode never raises
+
+Statements about the loader model `SigmaVerif.Load` (Model/Load.lean), which is written over partial
+Python primitives (`obj[key]`, `.items()`, `.upper()`, `UUID()`, `int()`, slicing, hashing …, each
+raising the Python exception class CPython raises on a wrong operand type) and mirrors the
+`isinstance` guards and `try/except` clauses of the loaders.  All theorems quantify over every
+YAML value `d : Y` (any nesting, any scalar keys) — no `inDomain` hypothesis.
+
+* `*_never_py`: no non-Sigma exception escapes, in either mode (dynamic type safety of the loaders).
+* `*_collect_never_raises`: collecting mode returns.  For correlation rules (and collections
+  containing them) this is FALSE in the code: `SigmaCorrelationRule.__post_init__` raises its
+  cross-field validation errors in collecting mode as well (known finding D8i) — recorded by the
+  witness theorems `corr_collect_raises_D8i`, `collection_collect_raises_D8i`; the `_partial`
+  theorems exclude exactly the documents the constructor rejects (`postInitFails`), and
+  `corr_collect_raises_iff` characterises the raised error exactly.
+* `*_strict_iff_collect`: strict loading succeeds iff nothing is collected, and the exception strict
+  loading raises is the first collected error.
+
+The model is tied to the implementation by the correspondence sweep of harness/c07.py (strict outcome
+class, collecting outcome, ordered list of collected error classes on every generated document that is
+`inDomain`) and by the obligations of Oblig/C07.lean over the tables extracted from the source.
+-/
 namespace SigmaVerif.Props.C07
-/-- placeholder until the loader outcome model is built -/
-theorem trivial_c07 : True := trivial
+open SigmaVerif.Load
+
+/-! ## no Python exception escapes -/
+
+/-- Loading any YAML value as a rule raises no exception outside the Sigma hierarchy, strictly or
+with error collection. -/
+theorem rule_never_py (d : Y) (c : PyCls) : strict .rule d ≠ .error (.py c) ∧ collect .rule d ≠ .error (.py c) := by
+  constructor
+  · simp only [strict, load, rule_strict_eq]; unfold strictOf; split <;> simp [Except.map]
+  · simp [collect, load, rule_collect_eq]
+
+/-- Loading any YAML value as a filter raises no exception outside the Sigma hierarchy. -/
+theorem filter_never_py (d : Y) (c : PyCls) : strict .filter d ≠ .error (.py c) ∧ collect .filter d ≠ .error (.py c) := by
+  constructor
+  · simp only [strict, load, filter_strict_eq]; unfold strictOf; split <;> simp [Except.map]
+  · simp [collect, load, filter_collect_eq]
+
+/-- Loading any YAML value as a correlation rule raises no exception outside the Sigma hierarchy —
+including the constructor's cross-field validation (rule references reaching it are strings). -/
+theorem corr_never_py (d : Y) (c : PyCls) : strict .corr d ≠ .error (.py c) ∧ collect .corr d ≠ .error (.py c) := by
+  have hg := good_corr d
+  exact ⟨map_ne_py _ (hg.noPy false) c, fun h => absurd (hg.noPy true c h) (by simp)⟩
+
+/-- Loading any YAML value (a list of documents, or one document) as a collection — dispatch on
+`action`, global/repeat merging, per-document loading, name registration — raises no exception
+outside the Sigma hierarchy. -/
+theorem collection_never_py (d : Y) (c : PyCls) :
+    strict .collection d ≠ .error (.py c) ∧ collect .collection d ≠ .error (.py c) := by
+  exact ⟨map_ne_py _ (collFromDicts_noPy false _) c, fun h => absurd (collFromDicts_noPy true _ c h) (by simp)⟩
+
+/-! ## collecting mode never raises -/
+
+/-- Loading a rule with error collection returns for every YAML value. -/
+theorem rule_collect_never_raises (d : Y) : ∃ errs, collect .rule d = .ok errs :=
+  ⟨_, rule_collect_eq d⟩
+
+/-- Loading a filter with error collection returns for every YAML value. -/
+theorem filter_collect_never_raises (d : Y) : ∃ errs, collect .filter d = .ok errs :=
+  ⟨_, filter_collect_eq d⟩
+
+/-- Collecting mode raises for a correlation rule exactly when the constructor rejects the document,
+and then with the constructor's error. -/
+theorem corr_collect_raises_iff (d : Y) (e : Exc) : collect .corr d = .error e ↔ corrPost d = .error e := by
+  simp only [collect, load, corr_collect_eq]
+  cases corrPost d <;> simp
+
+/-- PARTIAL (the full statement is false, see `corr_collect_raises_D8i`): loading a correlation rule
+with error collection returns for every YAML value the constructor's cross-field validation accepts. -/
+theorem corr_collect_never_raises_partial (d : Y) (h : ¬ postInitFails d) : ∃ errs, collect .corr d = .ok errs := by
+  have h' : corrPost d = .ok () := by simpa [postInitFails] using h
+  exact ⟨corrErrs d, by simp [collect, load, corr_collect_eq, h']⟩
+
+/-- the example of finding D8i: a `value_count` rule whose condition has no `field` -/
+def d8i : Y := .map [(.str (S "title"), .str (S "C2")),
+  (.str (S "correlation"), .map [(.str (S "type"), .str (S "value_count")), (.str (S "rules"), .list [.str (S "r1")]),
+    (.str (S "timespan"), .str (S "1h")), (.str (S "condition"), .map [(.str (S "lt"), .int 3)])])]
+
+/-- DEFECT D8i recorded: collecting mode raises (a Sigma error) on a correlation rule document. -/
+theorem corr_collect_raises_D8i : collect .corr d8i = .error (.sigma .correlationRuleError) := by decide
+
+/-- … also when the document has other errors that were collected before (`title` missing). -/
+theorem corr_collect_raises_D8i_with_errors :
+    collect .corr (.map [(.str (S "correlation"), .map [(.str (S "type"), .str (S "value_count")), (.str (S "rules"), .str (S "r1")),
+      (.str (S "timespan"), .str (S "1h")), (.str (S "condition"), .int 5)])]) = .error (.sigma .correlationRuleError) := by decide
+
+/-- PARTIAL: loading a collection with error collection returns when the constructor of
+`SigmaCorrelationRule` accepts every document of the collection. -/
+theorem collection_collect_never_raises_partial (d : Y) (h : ∀ doc ∈ collDocs d, ¬ postInitFails doc) :
+    ∃ errs, collect .collection d = .ok errs := by
+  have hp : ∀ doc ∈ collDocs d, corrPost doc = .ok () := fun doc hd => by simpa [postInitFails] using h doc hd
+  obtain ⟨st', h1, h2, _⟩ := collLoop_collect (collDocs d) {} inv_init hp
+  exact ⟨st'.errs, by simp [collect, load, collFromDicts, h1, collPostInit_ok st' h2]⟩
+
+/-- DEFECT D8i through a collection. -/
+theorem collection_collect_raises_D8i : collect .collection (.list [d8i]) = .error (.sigma .correlationRuleError) := by decide
+
+/-! ## strict loading against collecting loading -/
+
+/-- Rules: strict loading succeeds exactly when collecting mode collects nothing, and an exception
+raised by strict loading is the first collected error. -/
+theorem rule_strict_iff_collect (d : Y) :
+    (strict .rule d = .ok () ↔ collect .rule d = .ok []) ∧
+    ∀ e, strict .rule d = .error e → ∃ c rest, e = .sigma c ∧ collect .rule d = .ok (c :: rest) := by
+  have h := strictOf_facts (ruleErrs d)
+  simp only [strict, collect, load, rule_strict_eq, rule_collect_eq]
+  refine ⟨by simpa using h.1, fun e he => ?_⟩
+  obtain ⟨c, rest, h1, h2⟩ := h.2 e he
+  exact ⟨c, rest, h1, by rw [h2]⟩
+
+/-- Filters: strict loading succeeds exactly when collecting mode collects nothing, and an exception
+raised by strict loading is the first collected error. -/
+theorem filter_strict_iff_collect (d : Y) :
+    (strict .filter d = .ok () ↔ collect .filter d = .ok []) ∧
+    ∀ e, strict .filter d = .error e → ∃ c rest, e = .sigma c ∧ collect .filter d = .ok (c :: rest) := by
+  have h := strictOf_facts (filterErrs d)
+  simp only [strict, collect, load, filter_strict_eq, filter_collect_eq]
+  refine ⟨by simpa using h.1, fun e he => ?_⟩
+  obtain ⟨c, rest, h1, h2⟩ := h.2 e he
+  exact ⟨c, rest, h1, by rw [h2]⟩
+
+/-- Correlation rules: strict loading succeeds exactly when collecting mode returns an empty error
+list (unconditionally — a rejection by the constructor fails both). -/
+theorem corr_strict_ok_iff (d : Y) : strict .corr d = .ok () ↔ collect .corr d = .ok [] := by
+  simp only [strict, collect, load, corr_strict_eq, corr_collect_eq]
+  cases hp : corrPost d <;> cases he : corrErrs d <;> simp [strictOf, Except.map]
+
+/-- PARTIAL (false in general by D8i, see `corr_first_error_fails_D8i`): when the constructor
+accepts the document, the exception strict loading raises is the first collected error. -/
+theorem corr_first_error_partial (d : Y) (h : ¬ postInitFails d) :
+    ∀ e, strict .corr d = .error e → ∃ c rest, e = .sigma c ∧ collect .corr d = .ok (c :: rest) := by
+  have h' : corrPost d = .ok () := by simpa [postInitFails] using h
+  intro e
+  simp only [strict, collect, load, corr_strict_eq, corr_collect_eq, h']
+  cases he : corrErrs d <;> simp [strictOf, Except.map]
+  intro h1; exact h1.symm
+
+/-- In general: what strict loading raises is the first collected error or the constructor's error. -/
+theorem corr_strict_error (d : Y) (e : Exc) (h : strict .corr d = .error e) :
+    (∃ c rest, e = .sigma c ∧ corrErrs d = c :: rest) ∨ (corrErrs d = [] ∧ corrPost d = .error e) := by
+  simp only [strict, load, corr_strict_eq] at h
+  cases he : corrErrs d with
+  | nil =>
+    right
+    simp only [he, strictOf, ok_bind] at h
+    cases hp : corrPost d <;> simp [hp, Except.map] at h
+    exact ⟨rfl, by rw [h]⟩
+  | cons c rest =>
+    left
+    simp [he, strictOf, Except.map] at h
+    exact ⟨c, rest, h.symm, rfl⟩
+
+/-- DEFECT D8i recorded: strict loading raises an error that collecting mode does not return. -/
+theorem corr_first_error_fails_D8i :
+    strict .corr d8i = .error (.sigma .correlationRuleError) ∧ ¬ ∃ errs, collect .corr d8i = .ok errs := by
+  refine ⟨by decide, ?_⟩
+  rw [corr_collect_raises_D8i]; simp
+
+/-- PARTIAL: collections whose documents the correlation constructor accepts — strict loading
+succeeds exactly when nothing is collected, and the exception it raises is the first collected error
+(errors of the documents in document order, merged with the collection's own errors). -/
+theorem collection_strict_iff_collect_partial (d : Y) (h : ∀ doc ∈ collDocs d, ¬ postInitFails doc) :
+    (strict .collection d = .ok () ↔ collect .collection d = .ok []) ∧
+    ∀ e, strict .collection d = .error e → ∃ c rest, e = .sigma c ∧ collect .collection d = .ok (c :: rest) := by
+  have hp : ∀ doc ∈ collDocs d, corrPost doc = .ok () := fun doc hd => by simpa [postInitFails] using h doc hd
+  obtain ⟨hm1, hm2⟩ := collLoop_modes (collDocs d) {} inv_init hp
+  obtain ⟨hn1, hn2⟩ := collLoop_noPy false (collDocs d) {} inv_init
+  simp only [strict, collect, load, collFromDicts]
+  cases hl : collLoop false {} (collDocs d) with
+  | ok st' =>
+    obtain ⟨h1, h2⟩ := hm1 st' hl
+    have hi := hn2 st' hl
+    simp only [h1, ok_bind, collPostInit_ok st' hi, pure_eq, Except.map]
+    have : st'.errs = [] := by simpa using h2
+    simp [this]
+  | error e =>
+    cases e with
+    | py c => exact absurd (hn1 c hl) (by simp)
+    | sigma c =>
+      obtain ⟨st'', rest, h1, h2, h3⟩ := hm2 c hl
+      simp only [h1, ok_bind, collPostInit_ok st'' h2, pure_eq, error_bind, Except.map]
+      have : st''.errs = c :: rest := by simpa using h3
+      simp [this]
+
+/-! ## the model against a declarative specification -/
+
+/-- Strict loading of a rule succeeds exactly on the documents `Spec/Load.lean` calls well formed (a
+map; optional attributes absent or of the right shape; a log source map naming category, product or
+service; a detection map with a condition and at least one well-formed detection) — for every YAML
+value, so the exception-driven control flow of the model computes this declarative predicate. -/
+theorem rule_loads_iff (d : Y) : strict .rule d = .ok () ↔ SigmaVerif.LoadSpec.wellFormedRule d = true := by
+  rw [← ruleErrs_nil_iff]
+  simp only [strict, load, rule_strict_eq]
+  cases ruleErrs d <;> simp [strictOf, Except.map]
+
+/-- … and error collection returns the empty list exactly on those documents. -/
+theorem rule_collects_nothing_iff (d : Y) : collect .rule d = .ok [] ↔ SigmaVerif.LoadSpec.wellFormedRule d = true := by
+  rw [← rule_loads_iff]; exact (rule_strict_iff_collect d).1.symm
+
+/-! ## non-vacuity: the base documents of harness/c07.py load, and malformed ones are classified -/
+def uuid1 : Str := S "929a690e-bef0-4204-a928-ef5e620d6fcc"
+
+/-- a valid rule with the optional attributes, a modifier, a regular expression and keyword lists -/
+def baseRule : Y := .map [
+  (.str (S "title"), .str (S "T")), (.str (S "id"), .str uuid1), (.str (S "name"), .str (S "nm")),
+  (.str (S "status"), .str (S "test")), (.str (S "level"), .str (S "high")), (.str (S "date"), .str (S "2024-01-31")),
+  (.str (S "modified"), .str (S "2024/02/01")), (.str (S "tags"), .list [.str (S "attack.t1059")]),
+  (.str (S "related"), .list [.map [(.str (S "id"), .str uuid1), (.str (S "type"), .str (S "derived"))]]),
+  (.str (S "logsource"), .map [(.str (S "category"), .str (S "c")), (.str (S "product"), .str (S "p"))]),
+  (.str (S "detection"), .map [
+    (.str (S "sel"), .map [(.str (S "f|contains"), .list [.str (S "a"), .str (S "b")]), (.str (S "g"), .int 1)]),
+    (.str (S "flt"), .list [.map [(.str (S "h"), .str (S "x"))], .map [(.str (S "i|re"), .str (S "y+"))]]),
+    (.str (S "kw"), .list [.str (S "k1"), .str (S "k2")]),
+    (.str (S "condition"), .list [.str (S "sel and not flt"), .str (S "1 of them")])])]
+
+example : strict .rule baseRule = .ok () := by decide
+example : collect .rule baseRule = .ok [] := by decide
+example : inDomain .rule baseRule = true := by decide
+example : SigmaVerif.LoadSpec.wellFormedRule baseRule = true := by decide
+
+/-- several errors are collected in program order; strict loading raises the first -/
+def badRule : Y := .map [
+  (.str (S "title"), .int 5), (.str (S "name"), .str []), (.str (S "tags"), .list [.str (S "x"), .int 3]),
+  (.str (S "date"), .str (S "2024-02-30")),
+  (.str (S "detection"), .map [(.str (S "s"), .map [(.str (S "f|contains"), .int 1)]), (.str (S "condition"), .str (S "s"))])]
+
+example : collect .rule badRule =
+    .ok [.nameError, .valueError, .tagError, .dateError, .titleError, .logsourceError, .typeError] := by decide
+example : strict .rule badRule = .error (.sigma .nameError) := by decide
+example : SigmaVerif.LoadSpec.wellFormedRule badRule = false := by decide
+example : strict .rule (.int 5) = .error (.sigma .typeError) := by decide
+example : collect .rule (.list []) = .ok [.typeError, .titleError, .logsourceError, .detectionError] := by decide
+
+def baseCorr : Y := .map [(.str (S "title"), .str (S "C")),
+  (.str (S "correlation"), .map [(.str (S "type"), .str (S "event_count")), (.str (S "rules"), .list [.str (S "r1"), .str (S "r2")]),
+    (.str (S "group-by"), .list [.str (S "u")]), (.str (S "timespan"), .str (S "5m")),
+    (.str (S "condition"), .map [(.str (S "gte"), .int 10)]), (.str (S "generate"), .bool true),
+    (.str (S "aliases"), .map [(.str (S "u"), .map [(.str (S "r1"), .str (S "user"))])])])]
+
+def extCorr : Y := .map [(.str (S "title"), .str (S "C4")),
+  (.str (S "correlation"), .map [(.str (S "type"), .str (S "temporal_ordered")), (.str (S "rules"), .list [.str (S "r1"), .str (S "r2")]),
+    (.str (S "timespan"), .str (S "2w")), (.str (S "condition"), .str (S "r1 and (not r2 or r1)"))])]
+
+example : strict .corr baseCorr = .ok () := by decide
+example : ¬ postInitFails baseCorr := by decide
+example : strict .corr extCorr = .ok () := by decide
+example : ¬ postInitFails extCorr := by decide
+example : postInitFails d8i := by decide
+
+def baseFilter : Y := .map [(.str (S "title"), .str (S "F")), (.str (S "logsource"), .map [(.str (S "category"), .str (S "c"))]),
+  (.str (S "filter"), .map [(.str (S "rules"), .list [.str (S "r1")]), (.str (S "flt"), .map [(.str (S "f"), .str (S "a"))]),
+    (.str (S "condition"), .str (S "not flt"))])]
+
+example : strict .filter baseFilter = .ok () := by decide
+example : collect .filter (.map [(.str (S "title"), .str (S "F")), (.str (S "filter"), .int 5)]) =
+    .ok [.logsourceError, .filterError] := by decide
+
+/-- a global document merged into a rule, an unknown action and a non-map entry -/
+example : collect .collection (.list [
+    .map [(.str (S "action"), .str (S "global")), (.str (S "title"), .str (S "g"))],
+    .map [(.str (S "logsource"), .map [(.str (S "category"), .str (S "c"))]),
+          (.str (S "detection"), .map [(.str (S "s"), .map [(.str (S "f"), .int 1)]), (.str (S "condition"), .str (S "s"))])],
+    .map [(.str (S "action"), .str (S "bogus"))], .int 5]) = .ok [.collectionError, .collectionError] := by decide
+example : ∀ doc ∈ collDocs (.list [baseRule, baseCorr, baseFilter]), ¬ postInitFails doc := by decide
+example : strict .collection (.list [baseRule, baseCorr, baseFilter]) = .ok () := by decide
+
 end SigmaVerif.Props.C07
